@@ -85,7 +85,7 @@ func (n *Node) Walk(f func(*Node)) {
 // Features summarises what makes a document non-trivial.
 type Features struct {
 	Repeat, Interleaved, Attr, MixedText, NSPrefix, Wide, Misc bool
-	Elements                                                int
+	Elements                                                   int
 }
 
 func (n *Node) Features() Features {
